@@ -191,6 +191,12 @@ def check_case(mod, tier, phase_name, case):
 
 
 def main(argv=None):
+    try:
+        # details may contain anything the code under test emitted, lone surrogates included
+        sys.stdout.reconfigure(errors="backslashreplace")
+        sys.stderr.reconfigure(errors="backslashreplace")
+    except Exception:  # noqa: BLE001
+        pass
     argv = list(sys.argv[1:] if argv is None else argv)
     if len(argv) < 2:
         print("usage: check <Cxx> <quick|thorough> | check <Cxx> --replay FILE")
@@ -329,7 +335,7 @@ def main(argv=None):
         rpath = os.path.join(rdir, bucket_hash(clause) + ".json")
         with open(rpath, "w", encoding="utf-8") as f:
             json.dump(dict(property=pid, phase=phase_name, clause=clause, detail=det, count=cnt, seed=seed, tier=tier,
-                           shrink_evaluations=evals, case=small), f, indent=1, ensure_ascii=False, default=str)
+                           shrink_evaluations=evals, case=small), f, indent=1, ensure_ascii=True, default=str)
         violations.append((clause, os.path.relpath(rpath, OUT), det))
 
     # -- vacuity floors (input-side labels only) --------------------------------------------------------
@@ -370,7 +376,7 @@ def main(argv=None):
               violations=len(violations))
     os.makedirs(os.path.join(OUT, "evidence"), exist_ok=True)
     with open(os.path.join(OUT, "evidence", pid + ".json"), "w", encoding="utf-8") as f:
-        json.dump(ev, f, indent=1, ensure_ascii=False, default=str)
+        json.dump(ev, f, indent=1, ensure_ascii=True, default=str)
 
     print(f"{pid} {tier} seed={seed}: evaluations={cov['evaluations']} distinct_nontrivial={cov['distinct_nontrivial']} "
           f"skipped={sum(total.skips.values())} truncated={total.truncated} wall={ev['wall_s']}s")
